@@ -237,7 +237,7 @@ func n10RandString(r *Rng) string {
 	case 4:
 		return []string{"a\"b", "back\\slash", "tab\there", "nl\nx", "\x01\x1f", "sl/ash", "<>&", "  "}[r.Intn(8)]
 	case 5:
-		return []string{"é", "世界", "😀", "a😀b𝄞", "�", "ſK", "\u007f\u0080"}[r.Intn(7)]
+		return []string{"é", "世界", "😀", "a😀b𝄞", "�", "ſK", "\u007f\u0080", "\u2028x\u2029", "\b\f\x00\x1e"}[r.Intn(9)]
 	default:
 		al := []rune("abz019 _-:,[]{}\"\\/é世😀\n\t")
 		n := r.Intn(12)
@@ -527,6 +527,77 @@ func runNut10Witness(c *Ctx, props []string) {
 	}
 }
 
+// nut10.SerializeSecret versus Model.Nut10Parse.serializeSecret (the printing side of the round-trip theorem
+// Props.C12.serialized_secret_read_back), and the round trip itself on the real functions
+func runNut10Serialize(c *Ctx, props []string) {
+	r := c.Rng
+	n := 3000
+	if c.Thorough {
+		n = 40000
+	}
+	var ops []Sx
+	var impls []string
+	for i := 0; i < n; i++ {
+		v := n10RandValue(r)
+		kind, ka := nut10.AnyoneCanSpend, "anyone"
+		switch r.Intn(3) {
+		case 0:
+			kind, ka = nut10.P2PK, "p2pk"
+		case 1:
+			kind, ka = nut10.HTLC, "htlc"
+		}
+		var tx Sx = A("nil")
+		if v.tags != nil {
+			rows := make([]Sx, len(v.tags))
+			for j, row := range v.tags {
+				if len(row) == 0 && r.Bool() {
+					v.tags[j] = nil
+					rows[j] = A("nil")
+					continue
+				}
+				el := make([]Sx, len(row))
+				for k, x := range row {
+					el[k] = S(x)
+				}
+				rows[j] = Ls(el)
+			}
+			tx = Ls(rows)
+		}
+		text, err := nut10.SerializeSecret(nut10.WellKnownSecret{Kind: kind, Data: nut10.SecretData{Nonce: v.nonce, Data: v.data, Tags: v.tags}})
+		impl := "(err)"
+		if err == nil {
+			impl = Render(S(text))
+		}
+		ops = append(ops, L(A("spend.serialize-secret"), A(ka), S(v.nonce), S(v.data), tx))
+		impls = append(impls, impl)
+		// the round trip on the real functions
+		back, err2 := nut10.DeserializeSecret(text)
+		same := err2 == nil && back.Kind == kind && back.Data.Nonce == v.nonce && back.Data.Data == v.data && len(back.Data.Tags) == len(v.tags)
+		if same {
+			for j := range v.tags {
+				if strings.Join(back.Data.Tags[j], "\x00") != strings.Join(v.tags[j], "\x00") || len(back.Data.Tags[j]) != len(v.tags[j]) {
+					same = false
+				}
+			}
+		}
+		c.Hist("serialize", fmt.Sprintf("kind=%s round-trip=%v", ka, same))
+		if !same {
+			prop := "C12"
+			if kind == nut10.HTLC {
+				prop = "C13"
+			}
+			c.MonitorFail(prop, prop+"/nut10/serialize-deserialize-differs", "DeserializeSecret(SerializeSecret(v)) is not v for kind "+ka, map[string]any{"text": text, "nonce": v.nonce, "data": v.data, "tags": v.tags})
+		}
+	}
+	ans := c.Drv.Batch(ops)
+	for i := range ops {
+		c.Case("serialize/"+strings.SplitN(impls[i], " ", 2)[0][:1], i < 50)
+		if ans[i] != impls[i] {
+			c.Disagree(props, Render(ops[i]), impls[i], ans[i], nil)
+		}
+	}
+}
+
 func runNut10(c *Ctx) {
 	props := []string{"C12", "C13"}
 	r := c.Rng
@@ -590,6 +661,7 @@ func runNut10(c *Ctx) {
 		cases = append(cases, tcase{text: text, feats: "mutated/" + how})
 	}
 	runNut10Witness(c, props)
+	runNut10Serialize(c, props)
 	ops := make([]Sx, len(cases))
 	for i, tc := range cases {
 		ops[i] = L(A("spend.parse-secret"), S(tc.text))
